@@ -2,8 +2,9 @@
 // the three code paths: POMDP::Model<MDP::Model> (dense Eigen), POMDP::SparseModel<MDP::SparseModel>
 // (sparse Eigen) and a user-defined model that only answers probability queries (non-Eigen branches).
 //
+// case:  reset <regime> S A O <tables 1> <tables 2> NB beliefs   (see main)
 // case:  bel <regime> S A O  T[a][s][s1]…  Ob[a][s1][o]…  R3[s][a][s1]…  NB  b_1[S] … b_NB[S]
-// out :  for each model kind (dense, sparse, generic):
+// out :  for each model kind (dense, sparse, generic):  "ok" followed by (or "throw <type>" instead of)
 //          for a, o: SOSA[a][o](s,s1) row-major
 //          for each belief: for a: partial[S] reward ; for o: unnorm[S] norm[S] punnorm[S] pnorm[S] pnormv[S]
 #include <AIToolbox/MDP/Model.hpp>
@@ -80,36 +81,134 @@ static void runModel(const M & model, const std::vector<POMDP::Belief> & beliefs
     }
 }
 
+// Runs one model variant: "ok <values…>" or, if building it from valid tables throws, "throw <type>".
+template <typename Build>
+static void emitVariant(Build && build, const std::vector<POMDP::Belief> & beliefs, vio::Out & out) {
+    vio::Out tmp;
+    try {
+        const auto model = build();
+        runModel(model, beliefs, tmp);
+    } catch (const std::exception & e) {
+        out << "throw" << vio::exnName(e);
+        return;
+    }
+    out << "ok";
+    out.os << tmp.os.str();
+}
+
+struct Tables { T3 t, r, ob; };   // t[s][a][s1], r[s][a][s1], ob[s1][a][o]
+
+static Tables readTables(vio::Cursor & c, size_t S, size_t A, size_t O) {
+    Tables x;
+    x.t.assign(S, std::vector<std::vector<double>>(A, std::vector<double>(S)));
+    x.r.assign(S, std::vector<std::vector<double>>(A, std::vector<double>(S)));
+    x.ob.assign(S, std::vector<std::vector<double>>(A, std::vector<double>(O)));
+    for (size_t a = 0; a < A; ++a) for (size_t s = 0; s < S; ++s) for (size_t s1 = 0; s1 < S; ++s1) x.t[s][a][s1] = c.nextDouble();
+    for (size_t a = 0; a < A; ++a) for (size_t s1 = 0; s1 < S; ++s1) for (size_t o = 0; o < O; ++o) x.ob[s1][a][o] = c.nextDouble();
+    for (size_t s = 0; s < S; ++s) for (size_t a = 0; a < A; ++a) for (size_t s1 = 0; s1 < S; ++s1) x.r[s][a][s1] = c.nextDouble();
+    return x;
+}
+
+static std::vector<POMDP::Belief> readBeliefs(vio::Cursor & c, size_t S) {
+    const size_t nb = c.nextSize();
+    std::vector<POMDP::Belief> beliefs;
+    for (size_t i = 0; i < nb; ++i) {
+        POMDP::Belief b(S);
+        for (size_t s = 0; s < S; ++s) b[s] = c.nextDouble();
+        beliefs.push_back(std::move(b));
+    }
+    return beliefs;
+}
+
+// Eigen-typed copies of the tables, for the matrix overloads of the setters
+static Matrix3D denseT(const Tables & x, size_t S, size_t A) {
+    Matrix3D m(A, Matrix2D(S, S));
+    for (size_t a = 0; a < A; ++a) for (size_t s = 0; s < S; ++s) for (size_t s1 = 0; s1 < S; ++s1) m[a](s, s1) = x.t[s][a][s1];
+    return m;
+}
+static Matrix3D denseO(const Tables & x, size_t S, size_t A, size_t O) {
+    Matrix3D m(A, Matrix2D(S, O));
+    for (size_t a = 0; a < A; ++a) for (size_t s1 = 0; s1 < S; ++s1) for (size_t o = 0; o < O; ++o) m[a](s1, o) = x.ob[s1][a][o];
+    return m;
+}
+static SparseMatrix3D toSparse(const Matrix3D & d) {
+    SparseMatrix3D m;
+    for (const auto & x : d) { SparseMatrix2D sp = x.sparseView(); sp.makeCompressed(); m.push_back(std::move(sp)); }
+    return m;
+}
+
+using DenseP  = POMDP::Model<MDP::Model>;
+using SparseP = POMDP::SparseModel<MDP::SparseModel>;
+
+// container (3-D table) overloads of the three setters
+template <typename M>
+static void setByTables(M & m, const Tables & x) {
+    m.setTransitionFunction(x.t);
+    m.setRewardFunction(x.r);          // folds r with the transitions just set
+    m.setObservationFunction(x.ob);
+}
+
 int main(int argc, char ** argv) {
     return vio::runCases(argc, argv, [](vio::Cursor & c, vio::Out & out) {
         const std::string kind = c.next();
-        if (kind != "bel") throw std::logic_error("unknown case kind " + kind);
-        c.next(); // regime: dy | gen (only the judge cares)
-        const size_t S = c.nextSize(), A = c.nextSize(), O = c.nextSize();
-        T3 t(S, std::vector<std::vector<double>>(A, std::vector<double>(S)));
-        T3 r(S, std::vector<std::vector<double>>(A, std::vector<double>(S)));
-        T3 ob(S, std::vector<std::vector<double>>(A, std::vector<double>(O)));
-        for (size_t a = 0; a < A; ++a) for (size_t s = 0; s < S; ++s) for (size_t s1 = 0; s1 < S; ++s1) t[s][a][s1] = c.nextDouble();
-        for (size_t a = 0; a < A; ++a) for (size_t s1 = 0; s1 < S; ++s1) for (size_t o = 0; o < O; ++o) ob[s1][a][o] = c.nextDouble();
-        for (size_t s = 0; s < S; ++s) for (size_t a = 0; a < A; ++a) for (size_t s1 = 0; s1 < S; ++s1) r[s][a][s1] = c.nextDouble();
-        const size_t nb = c.nextSize();
-        std::vector<POMDP::Belief> beliefs;
-        for (size_t i = 0; i < nb; ++i) {
-            POMDP::Belief b(S);
-            for (size_t s = 0; s < S; ++s) b[s] = c.nextDouble();
-            beliefs.push_back(std::move(b));
-        }
-        {
-            POMDP::Model<MDP::Model> dense(O, ob, S, A, t, r, 0.5);
-            runModel(dense, beliefs, out);
-        }
-        {
-            POMDP::SparseModel<MDP::SparseModel> sparse(O, ob, S, A, t, r, 0.5);
-            runModel(sparse, beliefs, out);
-        }
-        {
-            UserModel user(S, A, O, t, r, ob);
-            runModel(user, beliefs, out);
-        }
+        if (kind == "bel") {
+            c.next(); // regime: dy | gen (only the judge cares)
+            const size_t S = c.nextSize(), A = c.nextSize(), O = c.nextSize();
+            const Tables x = readTables(c, S, A, O);
+            const auto beliefs = readBeliefs(c, S);
+            emitVariant([&]{ return DenseP(O, x.ob, S, A, x.t, x.r, 0.5); }, beliefs, out);
+            emitVariant([&]{ return SparseP(O, x.ob, S, A, x.t, x.r, 0.5); }, beliefs, out);
+            emitVariant([&]{ return UserModel(S, A, O, x.t, x.r, x.ob); }, beliefs, out);
+        } else if (kind == "reset") {
+            // reset <regime> S A O <tables 1> <tables 2> NB beliefs
+            // Models are built through the other public construction paths and then RE-SET; the belief
+            // updates must be the Bayes filter of the tables supplied LAST (tables 2).
+            // variants, in output order:
+            //   dense     (O,S,A) ctor; container setters with tables 1; container setters with tables 2
+            //   dense-m   (O,S,A) ctor; matrix-overload setters with tables 1, then with tables 2
+            //   dense-c   converted from the re-set sparse model (POMDP::Model(const PM&))
+            //   sparse    (O,S,A) ctor; container setters with tables 1; container setters with tables 2
+            //   sparse-m  (O,S,A) ctor; SparseMatrix-overload setters with tables 1, then with tables 2
+            //   sparse-d  (O,S,A) ctor (identity T, observation 0 certain); container setters with tables 2 only
+            //   sparse-c  converted from the re-set dense model (POMDP::SparseModel(const PM&))
+            //   generic   user-defined model over tables 2
+            c.next();
+            const size_t S = c.nextSize(), A = c.nextSize(), O = c.nextSize();
+            const Tables x1 = readTables(c, S, A, O);
+            const Tables x2 = readTables(c, S, A, O);
+            const auto beliefs = readBeliefs(c, S);
+
+            auto mkDense  = [&]{ DenseP m(O, S, A, 0.5);  setByTables(m, x1); setByTables(m, x2); return m; };
+            auto mkSparse = [&]{ SparseP m(O, S, A, 0.5); setByTables(m, x1); setByTables(m, x2); return m; };
+
+            emitVariant(mkDense, beliefs, out);
+            emitVariant([&]{
+                DenseP m(O, S, A, 0.5);
+                DenseP tmp1(O, S, A, 0.5); setByTables(tmp1, x1);   // only to obtain the folded S x A rewards
+                const DenseP tmp2 = mkDense();
+                m.setTransitionFunction(denseT(x1, S, A));
+                m.setRewardFunction(tmp1.getRewardFunction());
+                m.setObservationFunction(denseO(x1, S, A, O));
+                m.setTransitionFunction(denseT(x2, S, A));
+                m.setRewardFunction(tmp2.getRewardFunction());
+                m.setObservationFunction(denseO(x2, S, A, O));
+                return m; }, beliefs, out);
+            emitVariant([&]{ return DenseP(mkSparse()); }, beliefs, out);
+            emitVariant(mkSparse, beliefs, out);
+            emitVariant([&]{
+                SparseP m(O, S, A, 0.5);
+                SparseP tmp1(O, S, A, 0.5); setByTables(tmp1, x1);
+                const SparseP tmp2 = mkSparse();
+                m.setTransitionFunction(toSparse(denseT(x1, S, A)));
+                m.setRewardFunction(tmp1.getRewardFunction());
+                m.setObservationFunction(toSparse(denseO(x1, S, A, O)));
+                m.setTransitionFunction(toSparse(denseT(x2, S, A)));
+                m.setRewardFunction(tmp2.getRewardFunction());
+                m.setObservationFunction(toSparse(denseO(x2, S, A, O)));
+                return m; }, beliefs, out);
+            emitVariant([&]{ SparseP m(O, S, A, 0.5); setByTables(m, x2); return m; }, beliefs, out);
+            emitVariant([&]{ return SparseP(mkDense()); }, beliefs, out);
+            emitVariant([&]{ return UserModel(S, A, O, x2.t, x2.r, x2.ob); }, beliefs, out);
+        } else throw std::logic_error("unknown case kind " + kind);
     });
 }
